@@ -301,8 +301,20 @@ func (x *FnCtx) verifyBody() {
 		v := x.paramValue(st, p, i == 0 && fn.Signature.Recv() != nil)
 		fr.params = append(fr.params, v)
 	}
+	// captured variables (closure verified on its own): each is a pointer to its own live cell
+	var fvs []*Term
 	for _, fv := range fn.FreeVars {
-		fr.binds = append(fr.binds, UnknownV{"free variable " + fv.Name()})
+		if _, ok := fv.Type().Underlying().(*types.Pointer); !ok {
+			fr.binds = append(fr.binds, UnknownV{"free variable " + fv.Name()})
+			continue
+		}
+		v := tb.Var("fv."+fv.Name(), IntSort)
+		st.pc = tb.And(st.pc, tb.Le(tb.IntC(1), v), tb.Lt(v, st.heap.A))
+		for _, o := range fvs {
+			st.pc = tb.And(st.pc, tb.Ne(v, o))
+		}
+		fvs = append(fvs, v)
+		fr.binds = append(fr.binds, v)
 	}
 	entry := st.Clone()
 	fr.entry = entry
@@ -444,6 +456,7 @@ type workItem struct {
 	ob      *Obligation
 	script  string
 	relaxed string // same query with universally quantified hypotheses dropped (sound weakening); tried first
+	instq   string // universally quantified hypotheses replaced by three rounds of ground instances (sound weakening, quantifier-free)
 	sliced  string // hypotheses restricted to the cone of influence of the goal (sound weakening)
 }
 
@@ -488,6 +501,17 @@ func (e *Engine) Discharge(results []*FnResult, timeoutS int, workers int) {
 					rel = append(r.ctx.relevantAxioms(rel), rel...)
 					rel = append(rel, r.tb.hashCongruence(rel)...)
 					it.relaxed = r.tb.Script(rel, false, "ALL")
+					// instances only: avoids the matching loops of nested heap reads (p[l[i]]) in the solver
+					iq := r.tb.instantiate(append(r.ctx.relevantAxioms(ob.Asserts), ob.Asserts...), 3)
+					var qf []*Term
+					for _, a := range iq {
+						qf = append(qf, r.tb.dropForalls(a, map[int]*Term{}))
+					}
+					qf = append(r.ctx.relevantAxioms(qf), qf...)
+					qf = append(qf, r.tb.hashCongruence(qf)...)
+					if s := r.tb.Script(qf, false, "ALL"); !hasQuantText(s) {
+						it.instq = s
+					}
 				}
 			}
 			items = append(items, it)
@@ -503,6 +527,12 @@ func (e *Engine) Discharge(results []*FnResult, timeoutS int, workers int) {
 				var sr SolverResult
 				if it.relaxed != "" {
 					sr = Solve(it.relaxed, maxInt(2, timeoutS/3), "z3-new")
+					if sr.Status != "unsat" {
+						sr = SolverResult{Status: "unknown"}
+					}
+				}
+				if sr.Status != "unsat" && it.instq != "" {
+					sr = Solve(it.instq, maxInt(3, timeoutS/2), "z3-new")
 					if sr.Status != "unsat" {
 						sr = SolverResult{Status: "unknown"}
 					}
@@ -554,6 +584,9 @@ func (e *Engine) Discharge(results []*FnResult, timeoutS int, workers int) {
 					os.MkdirAll(os.Getenv("GOVC_KEEP"), 0755)
 					if it.sliced != "" {
 						os.WriteFile(filepath.Join(os.Getenv("GOVC_KEEP"), sanitize(ob.fn.key+"_"+ob.Name)+".sliced.smt2"), []byte(it.sliced), 0644)
+					}
+					if it.instq != "" {
+						os.WriteFile(filepath.Join(os.Getenv("GOVC_KEEP"), sanitize(ob.fn.key+"_"+ob.Name)+".instq.smt2"), []byte(it.instq), 0644)
 					}
 					if it.relaxed != "" {
 						os.WriteFile(filepath.Join(os.Getenv("GOVC_KEEP"), sanitize(ob.fn.key+"_"+ob.Name)+".relaxed.smt2"), []byte(it.relaxed), 0644)
